@@ -1225,6 +1225,17 @@ fn part_c_probes(root: &Path, st: &mut Stats) {
             (t, o) => st.fail("oracle", "probe-long-double", format!("unexpected outcome: type {t:?} output {o:?} err {:?}", ro.rustc_err.as_ref().map(|e| e.chars().take(300).collect::<String>())), "probe_long_double"),
         }
     }
+    // 6b. a global that is not `const` but has an initialiser visible in the header: the declared mutability
+    //     must survive (`static mut`), the C side may change it
+    if let Some((inv, _pred, ro)) = probe("probe_nonconst_global", "int c04_nc = 5;\ndouble c04_ncd = 1.5;\nvoid c04_bump(void);\n", "void c04_bump(void) { c04_nc += 1; c04_ncd += 1.0; }\n",
+        "c04_bump(); println!(\"R {} {}\", c04_nc, c04_ncd);", CbMode::None, root, st) {
+        let is_static = inv.statics.iter().any(|s| s.ident == "c04_nc") && inv.statics.iter().any(|s| s.ident == "c04_ncd");
+        match (is_static, ro.stdout.trim()) {
+            (false, "R 5 1.5") => { *st.known.entry("nonconst_global_emitted_as_const: `int c04_nc = 5; double c04_ncd = 1.5;` (not const, initialiser visible) are bound as `pub const c04_nc: c_int = 5` / `pub const c04_ncd: f64 = 1.5`; after the C side changed them to 6 / 2.5 the Rust side still reads 5 / 1.5".into()).or_insert(0) += 1; }
+            (true, "R 6 2.5") => { st.distinct.insert("probe:nonconst-global:fixed".into()); }
+            (s, o) => st.fail("oracle", "probe-nonconst-global", format!("unexpected outcome: static={s} output {o:?} err {:?}", ro.rustc_err.as_ref().map(|e| e.chars().take(300).collect::<String>())), "probe_nonconst_global"),
+        }
+    }
     // 7. C overload sets (`__attribute__((overloadable))`) with one transparent (unmangled) member at every
     //    position: the member that is renamed `<name><k>` must still reach the symbol `<name>`
     let tys: [(&str, &str); 6] = [("long", "l"), ("double", "d"), ("int", "i"), ("unsigned", "j"), ("short", "s"), ("float", "f")];
